@@ -299,7 +299,7 @@ Proof.
   - (* Mark *)
     destruct k; cbn [step] in Hs.
     + injection Hs as <-. exact HR.
-    + destruct (ack_check c); [discriminate|]. injection Hs as <-. exact HR.
+    + destruct (ack_check op c); [discriminate|]. injection Hs as <-. exact HR.
 Qed.
 
 (* ---- whole traces ------------------------------------------------------------ *)
@@ -336,18 +336,21 @@ Proof.
   destruct (check seg c0 0 t1) as [c1|v]; [eauto|discriminate].
 Qed.
 
-Lemma ack_ok : forall seg c op n c', step seg c (Mark MAck op n) = inl c' -> ack_check c = None.
-Proof. intros seg c op n c' H. cbn [step] in H. destruct (ack_check c); [discriminate|reflexivity]. Qed.
+Lemma ack_ok : forall seg c op n c', step seg c (Mark MAck op n) = inl c' -> ack_check op c = None.
+Proof. intros seg c op n c' H. cbn [step] in H. destruct (ack_check op c); [discriminate|reflexivity]. Qed.
 
-Lemma ack_check_none : forall c, ack_check c = None ->
+Lemma ack_check_none : forall op c, ack_check op c = None ->
   dirty c = [] /\ (forall s, In s (pendent c) -> ~ In s (written c)) /\ unl c = false /\
-  ren_pending c = false /\ meta_dirty c = false.
+  ren_pending c = false /\ (op <> op_store -> meta_dirty c = false).
 Proof.
-  intros c H. unfold ack_check in H.
+  intros op c H. unfold ack_check in H.
   destruct (is_nil (dirty c)) eqn:E1; cbn [negb] in H; [|discriminate].
   destruct (forallb (fun s => negb (memb s (written c))) (pendent c)) eqn:E2; cbn [negb] in H; [|discriminate].
   destruct (unl c); [discriminate|]. destruct (ren_pending c); [discriminate|].
-  destruct (meta_dirty c); [discriminate|].
+  assert (Hm : op <> op_store -> meta_dirty c = false).
+  { intros Hop. destruct (meta_dirty c); [|reflexivity].
+    replace (op =? op_store) with false in H by (symmetry; apply N.eqb_neq; exact Hop).
+    discriminate. }
   split; [apply is_nil_true; exact E1|]. split; [|auto].
   intros s Hs Hw. rewrite forallb_forall in E2. specialize (E2 s Hs).
   apply negb_true_iff in E2. apply memb_false in E2. contradiction.
@@ -356,8 +359,9 @@ Qed.
 (* C07_discipline_sound: at every ACK of a trace that obeys the discipline,
    every write a live segment file has received is in the synced content of a
    file that exists with a durable directory entry; nothing is pending in it;
-   every deletion is durable; the metadata db has no unsynced page and its
-   name is durable. *)
+   every deletion is durable; the metadata db is complete and durably named
+   and -- at every ACK other than a StoreLogs', which may overlap the
+   background rotation's metadata commit -- has no unsynced page. *)
 Theorem discipline_sound : forall seg t1 op n t2,
   discipline seg (t1 ++ Mark MAck op n :: t2) = true ->
   let d := drun t1 d0 in
@@ -365,7 +369,7 @@ Theorem discipline_sound : forall seg t1 op n t2,
      f_exists (segs d s) = true /\ In w (f_synced (segs d s)) /\
      f_pend (segs d s) = [] /\ f_dur (segs d s) = true) /\
   (forall s, f_dur (segs d s) = true -> f_exists (segs d s) = true) /\
-  m_pend d = false /\
+  (op <> op_store -> m_pend d = false) /\
   (meta d <> None -> meta d = Some true /\ m_dur d = true).
 Proof.
   intros seg t1 op n t2 H. cbn zeta.
@@ -376,7 +380,7 @@ Proof.
   cbn [check] in Hc2. destruct (step seg c1 (Mark MAck op n)) as [c1'|v] eqn:Hs; [|discriminate].
   pose proof (check_R _ _ _ _ _ _ _ R0 Hc1) as HR. fold (live_writes t1) in HR.
   unfold lwrun in HR. change (fold_left (fun lw e => lwstep e lw) t1 (fun _ => [])) with (live_writes t1) in HR.
-  destruct (ack_check_none _ (ack_ok _ _ _ _ _ Hs)) as (Hd & Hp & Hu & Hr & Hm).
+  destruct (ack_check_none _ _ (ack_ok _ _ _ _ _ Hs)) as (Hd & Hp & Hu & Hr & Hm).
   destruct HR as [H1 H2 H3 H4 H5 H6 H7 M1 M2 M3 M4 M5 M6 M7].
   assert (Hpend : forall s, f_pend (segs (drun t1 d0) s) = []).
   { intros s. destruct (f_pend (segs (drun t1 d0) s)) eqn:E; [reflexivity|].
@@ -391,7 +395,8 @@ Proof.
       exfalso. apply (Hp s); eauto.
   - intros s Hdur. destruct (f_exists (segs (drun t1 d0) s)) eqn:E; [reflexivity|].
     specialize (H6 s Hdur E). congruence.
-  - destruct (m_pend (drun t1 d0)); [specialize (M6 eq_refl); congruence|reflexivity].
+  - intros Hop. specialize (Hm Hop).
+    destruct (m_pend (drun t1 d0)); [specialize (M6 eq_refl); congruence|reflexivity].
   - intros Hne. rewrite M5 in *. destruct (meta_exists c1); [|congruence].
     split; [reflexivity|].
     destruct (m_dur (drun t1 d0)) eqn:E; [reflexivity|]. specialize (M7 eq_refl eq_refl). congruence.
@@ -534,6 +539,7 @@ Proof.
       { apply forallb_forall. intros x Hx. apply negb_true_iff. apply memb_false. intros Hwr.
         assert (In x (w_dirty w)) by (apply PW; assumption). rewrite E in H. contradiction. }
       cbn [check step]. unfold ack_check. rewrite Hd, Hf, U, RP, MD. cbn.
+      
       eexists. split; [reflexivity|]. constructor; auto.
 Qed.
 
